@@ -57,6 +57,34 @@ def _v(ctx, prop, checks, what, kind, sample, runner, extra=None):
     ctx.violation("oracle", "%s %s: %s" % (prop, kind.name, what), data)
 
 
+V23SHAPE = {"TYER", "TDAT", "TIME", "TORY", "IPLS"}
+
+
+def expected_tdrc(mem):
+    """the recording time a reload must report after a v2.3 save: TDRC itself when it was written as such, else
+    TYER [+ TDAT [+ TIME]] combined (ID3v2.4 4.2.5 / v2.3 4.2.1; minute precision)"""
+    import ast
+    def txt(name):
+        for m in mem:
+            if m[0] == name:
+                v = ast.literal_eval(dict(m[2]).get("text", "[]"))
+                return v[0] if v else ""
+        return None
+    t = [m for m in mem if m[0] == "TDRC"]
+    if t:
+        return t
+    y = txt("TYER")
+    if not y:
+        return []
+    d, tm = txt("TDAT"), txt("TIME")
+    s = y
+    if d:
+        s = "%s-%s-%s" % (y, d[2:], d[:2])
+        if tm:
+            s += " %s:%s:00" % (tm[:2], tm[2:])
+    return [("TDRC", "TDRC", [("text", repr([s]))])]
+
+
 def join23(x):
     """v2.3 canonical form of an independent-decoding tuple: multi-values joined by '/'"""
     if x[0] in ("T",):
@@ -120,8 +148,20 @@ def evaluate(ctx, checks, kind, sample, runner, st, info0):
                 mem = [m for m in mem if m[1] != "COMM:ID3v1 Comment:eng"]
                 if isinstance(re, list):
                     re = [m for m in re if m[1] != "COMM:ID3v1 Comment:eng"]
+            if st.v2 != 3 and any(m[0] in V23SHAPE for m in mem):
+                # frames left in v2.3 shape in memory (after update_to_v23) come back converted on every load
+                drop = V23SHAPE | {"TDRC", "TDOR", "TIPL", "TMCL"}
+                mem = sorted([m for m in mem if m[0] not in drop] + expected_tdrc(mem), key=lambda m: m[1])
+                if isinstance(re, list):
+                    re = sorted([m for m in re if m[0] not in drop or m[0] == "TDRC"], key=lambda m: m[1])
             if st.v2 == 3:
-                mem = None          # v2.3 conversions are C13's subject; here only the independent decoding is compared
+                # v2.3 conversions are C13's subject; here the independent decoding is compared, and of the reloaded
+                # tags only the recording time (it must come back at full precision through TYER+TDAT+TIME)
+                mem = expected_tdrc(mem)
+                if isinstance(re, list):
+                    re = [m for m in re if m[0] == "TDRC"]
+                elif re is None:
+                    re = []
         if kind.style == "ape" and mem == []:
             mem = None
         if kind.style == "ape" and re == []:
@@ -170,6 +210,8 @@ def evaluate(ctx, checks, kind, sample, runner, st, info0):
                 break
         if kind.family == "id3" and st.after[:3] == b"ID3" and st.before[:3] == b"ID3" and not st.before[10 + W.syncsafe(st.before[6:10]):][:3] == b"ID3":
             _v(ctx, "C08", checks, "ID3v2 header remains after delete", kind, sample, runner)
+        if kind.family == "id3" and wb["extra"].get("v1") and wa["extra"].get("v1") and st.exc is None:
+            _v(ctx, "C08", checks, "ID3v1 tag remains at the end of the file after delete", kind, sample, runner)
         if kind.family == "ape" and had and wb["extra"].get("tag_region") and b"APETAGEX" in st.after[len(wa["foreign"][0][1]):]:
             _v(ctx, "C08", checks, "APEv2 header/footer remains after delete", kind, sample, runner)
         # deleting again does not change the bytes
@@ -339,10 +381,45 @@ def c07_scenario(ctx, checks, kind, sample, data):
         v("uninterpreted tag data lost by load+save", {"before": repr(unk0)[:200], "after": repr(unk1)[:200]})
     if w1 is not None and foreign_preserved(kind, w0, w1):
         v("foreign container elements changed by load+save")
+    if w1 is not None:
+        u0, u1 = uninterpreted_raw(kind, w0, o), uninterpreted_raw(kind, w1, o)
+        lost = list(u0)
+        for x in u1:
+            if x in lost:
+                lost.remove(x)
+        if u0:
+            ctx.count("c07:uninterpreted-items")
+        if lost:
+            v("tag data mutagen cannot interpret lost by an unmodified load+save", {"lost": repr(lost)[:300]})
     if d2 != d1:
         v("second save changes the file")
     if d3 != d2:
         v("third save changes the file")
+
+
+def uninterpreted_raw(kind, w, o):
+    """raw tag items of the walked file that mutagen does not interpret (independent of the loader's own
+    bookkeeping): MP4 ilst items whose key is not among the loaded tags, ID3v2.4 frames with an unknown id"""
+    t = w.get("tags")
+    try:
+        if kind.style == "mp4" and t:
+            keys = set(kind.tags_of(o).keys())
+            out = []
+            for name, sub in t:
+                key = name.decode("latin-1")
+                if name == b"----":
+                    mean = b"".join(x[4:] for n, x in sub if n == b"mean")
+                    nm = b"".join(x[4:] for n, x in sub if n == b"name")
+                    key = "----:" + mean.decode("latin-1") + ":" + nm.decode("latin-1")
+                if key not in keys:
+                    out.append((name, tuple(sub)))
+            return out
+        if kind.style == "id3" and isinstance(t, dict) and t.get("version") == 4:
+            from mutagen.id3 import Frames
+            return [f for f in t["frames"] if f[0] not in Frames]
+    except Exception:
+        return []
+    return []
 
 
 def raw_unknown(kind, o):
